@@ -98,7 +98,7 @@ Proof.
     pose proof (fr_len _ _ (run_frame _ _ _ _ _ E1)) as L1.
     apply IHxs with (n0 := n0) in E; try lia.
     destruct acc; try tauto. destruct acc'; try tauto. destruct r; auto.
-    destruct H1 as [H1|H1]; destruct E as [E|E]; subst; auto; right; lia.
+    destruct H1 as [H1|H1]; destruct E as [E|E]; subst; auto; right; unfold addr in *; lia.
 Qed.
 
 (* the first append on the zero-capacity constant always reallocates *)
@@ -124,7 +124,7 @@ Proof.
     rewrite run_bind in E. destruct (run (op_append grow empty_arr x) (start h owned)) as [[acc s1]|] eqn:E1; try discriminate.
     apply first_append_fresh in E1. destruct E1 as (len & cap & Ea & L1). subst acc. cbn [hp start] in *.
     apply arr_construct_from_addr with (n0 := length h) in E; try lia.
-    destruct r; try tauto. do 4 eexists. split; eauto. destruct E; subst; lia.
+    destruct r; try tauto. do 4 eexists. split; eauto. unfold addr in *. destruct E; subst; lia.
   - intros ->. cbn in E. inversion E; auto.
 Qed.
 
